@@ -39,7 +39,7 @@ type Svc struct {
 }
 
 func (s *Svc) Unary(ctx context.Context, in *Msg) (*Msg, error) { return s.UnaryFn(ctx, in) }
-func (s *Svc) Stream(kind string, ss grpc.ServerStream) error     { return s.StreamFn(kind, ss) }
+func (s *Svc) Stream(kind string, ss grpc.ServerStream) error   { return s.StreamFn(kind, ss) }
 
 func unaryHandler(srv any, ctx context.Context, dec func(any) error, interceptor grpc.UnaryServerInterceptor) (any, error) {
 	in := new(Msg)
